@@ -11,7 +11,7 @@ reached, with all helpers inlined.  Fallback / retry obligations are decided by 
 (ENOSYS, EINTR, ...) at the site and walking the inlined graph path-sensitively: what must hold is stated
 about every path that saw the failure.
 """
-from ..core import (AnalysisBroken, PRIMITIVES, canon, strip, last_member, walk, method_slot, norm_cond)
+from ..core import (AnalysisBroken, PRIMITIVES, canon, strip, last_member, walk, method_slot, norm_cond, names_of)
 from ..analyses import (is_call, holding, callback_kind, locksets, held, SIGBLOCK)
 from .. import roles
 from . import h15
@@ -92,6 +92,12 @@ def _contexts_of(prog, owner):
     return nearest_roots(prog, owner)
 
 
+def _wide_contexts(prog, owner):
+    if owner.name in PRIMITIVES:
+        return [owner]
+    return h15.widest_contexts(prog, owner)
+
+
 def _eval_site(prog, owner, check, **kw):
     if owner.name in PRIMITIVES:
         ok, detail = check(owner, owner)
@@ -119,17 +125,30 @@ def _kills_for(prog, root):
     return kills
 
 
+def _dispatch_names(prog):
+    """{name: table} of the private constant tables (dispatch and data) whose name is unambiguous"""
+    if getattr(prog, '_c15_dn', None) is None:
+        by = {}
+        for t in h15.const_tables(prog).values():
+            by.setdefault(t['name'], []).append(t)
+        # (a table defined in a header exists once per unit that includes it, with the same contents)
+        sig = lambda t: ([sorted((str(k), f.name) for k, f in row.items()) for row in t['elems']],
+                         [sorted((str(k), v) for k, v in row.items()) for row in t['data']])
+        prog._c15_dn = {n: ts[0] for n, ts in by.items() if all(sig(t) == sig(ts[0]) for t in ts)}
+    return prog._c15_dn
+
+
 class CSim(Sim):
     """Sim whose indirect calls forget only the state they can reach (see _kills_for)."""
 
     def __init__(self, prog, root, g, oracle=None, marker=None, init=None, edge_marker=None):
-        Sim.__init__(self, g, oracle, marker, init, edge_marker=edge_marker)
+        Sim.__init__(self, g, oracle, marker, init, edge_marker=edge_marker, tabs=_dispatch_names(prog))
         self._kills = _kills_for(prog, root)
 
     def _event(self, e, env, marks):
         if e['ev'] == 'call' and 'fnexpr' in e:
             killed = self._kills(e, self.globals)
-            keep = {k: v for k, v in env.items() if k in self.globals and k not in killed}
+            keep = {k: v for k, v in env.items() if k[0] not in '$%' and self.is_global(k) and h15.key_root(k) not in killed}
             if killed and 'F' in marks and not any(isinstance(x, tuple) and x[0] == 'post' for x in marks):
                 # control is handed to code that may re-enter the library: the file-scope state as it is now is
                 # what that code (and every later invocation) finds
@@ -164,14 +183,19 @@ def vtable(ctx):
             partner_of[s] = set(grp)
     never_null = {s for s in optional if all(t.get(s) for t in tables.values())}
     sites = _sites(prog, lambda e: e['ev'] == 'call' and (callback_kind(e) or ('', ''))[0] == 'method' and callback_kind(e)[1] in optional)
-    if len(sites) < 6:
-        raise AnalysisBroken('optional slot call sites: %d' % len(sites))
+    # anchor: every optional slot that some table defines is called somewhere (how many source sites do it, and in
+    # which helper, is free)
+    called = {callback_kind(evs[0])[1] for (_, evs) in sites.values()}
+    uncalled = sorted(s_ for s_ in optional if any(t.get(s_) for t in tables.values()) and s_ not in called)
+    if uncalled:
+        raise AnalysisBroken('optional slots that are defined but never called through the method pointer: %s' % uncalled)
     absent_cache = {}
+    inst = {}       # (entry point label, slot) -> [(loc, ok, detail, fn)]
     for loc, (f, evs) in sorted(sites.items()):
         slot = callback_kind(evs[0])[1]
-        inst = '%s:call %s' % (f.name, slot)
         if slot in never_null:
-            ctx.ob('R-C15a', inst, True, loc=loc, detail='slot is defined in every table', fn=f.q)
+            for r in _contexts_of(prog, f):
+                inst.setdefault((_role_label(prog, r), slot), []).append((loc, True, 'slot is defined in every table', f.q))
             continue
         grp = partner_of.get(slot, {slot})
         key = tuple(sorted(grp - {slot}))
@@ -195,9 +219,16 @@ def vtable(ctx):
                 return False, 'unguarded in %s' % root.name
             return True, 'guarded in %s' % root.name
         ok, res = _eval_site(prog, f, check)
-        ctx.ob('R-C15a', inst, ok, loc=loc,
-               detail='call through optional slot `%s` is dominated by a non-NULL test of %s, or by a zero test of a flag that records their absence %s, in every entry point '
-                      'that reaches it (%s)' % (slot, sorted(grp), sorted(flags), '; '.join(d for _, _, d in res)), fn=f.q)
+        for (r, rok, detail) in res:
+            inst.setdefault((_role_label(prog, r), slot), []).append(
+                (loc, rok, detail + (' (absence flags: %s)' % sorted(flags) if flags else ''), f.q))
+    for (label, slot), rows in sorted(inst.items()):
+        bad = [x for x in rows if not x[1]]
+        grp = partner_of.get(slot, {slot})
+        ctx.ob('R-C15a', '%s:call %s' % (label, slot), not bad, loc=(bad or rows)[0][0],
+               detail='every call through optional slot `%s` in this entry point is dominated by a non-NULL test of %s, or by a zero test of a flag that '
+                      'records their absence (%s) [sites: %s]' % (slot, sorted(grp), '; '.join(sorted({x[2] for x in rows})),
+                                                                 ', '.join(sorted({relloc(x[0]) for x in rows}))), fn=(bad or rows)[0][3])
 
 
 def _absence_flags(prog, partner_slots):
@@ -225,14 +256,21 @@ def _absence_flags(prog, partner_slots):
                 ends = [env for (_, env, m, _) in sim.exits if 'ABSENT' in m]
                 if not ends:
                     continue
-                good = {n for n in sim.globals if all(truth(env.get(n, TOP)) is True for env in ends)}
+                keys = {k for env in ends for k in env if k[0] not in '$%&' and sim.is_global(k)}
+                good = {n for n in keys if all(truth(env.get(n, TOP)) is True for env in ends)}
                 cands = good if cands is None else (cands & good)
     if not cands:
         return set()
     out = set()
     for name in cands:
-        ws = prog.global_writers(name)
-        if ws and all(e.get('op') == '=' and isinstance(strip(e.get('rhs')), dict) and strip(e['rhs']).get('k') == 'int' and strip(e['rhs'])['v'] != 0 for (_, e) in ws):
+        # every store to the flag (a file-scope scalar, or a member of a file-scope struct) writes a non-zero constant
+        ws = []
+        for (fn_, e) in prog.global_writers(h15.key_root(name)):
+            k = h15.loc_key(e['lhs'])
+            if k is None or k == name or name.startswith(k + '.') or name.startswith(k + '['):
+                ws.append(e)
+        if ws and all(e.get('op') == '=' and h15.loc_key(e['lhs']) == name and isinstance(strip(e.get('rhs')), dict)
+                      and strip(e['rhs']).get('k') == 'int' and strip(e['rhs'])['v'] != 0 for e in ws):
             out.add(name)
     return out
 
@@ -241,16 +279,38 @@ def _absence_flags(prog, partner_slots):
 # R-C15b
 # --------------------------------------------------------------------------
 
+def _table_values(g, x, seen=()):
+    """names of the globals whose address the expression may evaluate to (through locals / substituted parameters of g)"""
+    x = strip(x)
+    if not isinstance(x, dict):
+        return set()
+    k = x.get('k')
+    if k == 'addr':
+        v = strip(x['e'])
+        return {v['name']} if isinstance(v, dict) and v.get('k') == 'var' and v.get('vk') not in ('local', 'param', 'func') else set()
+    if k == 'cond':
+        return _table_values(g, x['a'], seen) | _table_values(g, x['b'], seen)
+    if k == 'var' and x.get('vk') in ('local', 'param') and x['name'] not in seen:
+        out = set()
+        for e in g.events():
+            if e['ev'] == 'store' and e.get('op') == '=' and 'rhs' in e and strip(e['lhs']).get('k') == 'var' and strip(e['lhs'])['name'] == x['name']:
+                out |= _table_values(g, e['rhs'], tuple(seen) + (x['name'],))
+        return out
+    return set()
+
+
 def fallbacks(ctx):
     prog = ctx.prog
     tables = prog.method_tables()
     mnames = h15.method_pointer_names(prog)
-    sites = _sites(prog, lambda e: h15.is_method_store(prog, e) and h15.stored_table(e) is not None)
+    # every store to the selected-method pointer, whatever is stored (`&table`, or a parameter / local of a helper
+    # that received `&table`: resolved in the entry point with the helper inlined)
+    sites = _sites(prog, lambda e: h15.is_method_store(prog, e))
     mid = []
     for loc, (f, evs) in sorted(sites.items()):
         # a store that only happens while no method is selected yet is the initial selection (R-C15e), not a fallback
         initial = True
-        for r in _contexts_of(prog, f):
+        for r in _wide_contexts(prog, f):
             g = inlined(prog, r)
             hd = holding(g, user_call_kills=False)
             for c in _copies(g, loc, lambda e: h15.is_method_store(prog, e)):
@@ -259,32 +319,36 @@ def fallbacks(ctx):
                     initial = False
         if not initial:
             mid.append((loc, f, evs[0]))
-    if len(mid) < 2:
-        raise AnalysisBroken('mid-run method fallbacks: %d found, 2 confirmed' % len(mid))
+    if not mid:
+        raise AnalysisBroken('no mid-run store to the selected-method pointer found (2 fallbacks confirmed)')
     for loc, f, e in mid:
-        target = h15.stored_table(e)
-        if target not in tables:
-            ctx.ob('R-C15b', '%s:target' % f.name, False, loc=loc, detail='fallback target %s is not a method table' % target, fn=f.q)
-            continue
-        for r in _contexts_of(prog, f):
-            srcs = {}
-            for t, slots in tables.items():
-                for k, v in slots.items():
-                    if v and v[0] != 'str' and prog.resolve(v[0], v[1]) is r:
-                        srcs.setdefault(t, k)
-            if not srcs:
-                ctx.ob('R-C15b', '%s:source' % r.name, False, loc=loc, detail='the entry point from which `method` is switched mid-run is not itself a method slot', fn=r.q)
+        ctxs = _wide_contexts(prog, f)
+        live_ctx = 0
+        for r in ctxs + [None]:
+            if r is None:
+                if not live_ctx:
+                    ctx.ob('R-C15b', '%s:reachable' % f.name, False, loc=loc, detail='the mid-run store to the method pointer is not executed on any '
+                           'path of the entry points that contain it (%s)' % ', '.join(x.name for x in ctxs), fn=f.q)
+                break
+            # what is stored, in this entry point (a shared switching helper stores what its caller passes)
+            g0 = inlined(prog, r)
+            tgts = set()
+            for c in _copies(g0, loc, lambda x: h15.is_method_store(prog, x)):
+                tv = _table_values(g0, c.get('rhs'))
+                tgts |= tv if tv else {'?'}
+            if not tgts:
+                continue            # removed as dead code in this entry point
+            if len(tgts) != 1 or list(tgts)[0] not in tables:
+                live_ctx += 1
+                ctx.ob('R-C15b', '%s:target' % _role_label(prog, r), False, loc=loc,
+                       detail='the value stored mid-run is not the address of one method table: %s' % sorted(tgts), fn=r.q)
                 continue
-            for s in sorted(srcs):
-                diff = [k for k in SAME_ON_FALLBACK if tables[s].get(k) != tables[target].get(k)]
-                ctx.ob('R-C15b', '%s:%s->%s' % (r.name, s.replace('iv_fd_poll_method_', ''), target.replace('iv_fd_poll_method_', '')), not diff, loc=loc,
-                       detail='state-bearing slots that differ: %s' % (diff or 'none (registered interests, notify lists and descriptors stay valid)'), fn=r.q)
-            slotname = sorted(set(srcs.values()))[0]
-            # the switching entry point still performs the wait / reports not armed
+            target = list(tgts)[0]
+            # the entry point with the wait of the new method visible (dispatch through the pointer just stored)
             g = inlined(prog, r, method_table=target)
             cps = _copies(g, loc, lambda x: h15.is_method_store(prog, x))
             if not cps:
-                raise AnalysisBroken('%s: method switch site lost by inlining' % r.name)
+                continue        # removed as dead code in this entry point (constant mode argument): see `reachable`
 
             def marker(ev, env, marks, loc=loc):
                 if ev['ev'] == 'store' and ev.get('loc') == loc and h15.is_method_store(prog, ev):
@@ -293,60 +357,126 @@ def fallbacks(ctx):
                     return ['WAIT:' + prim_kind(ev)]
                 return ()
             sim = CSim(prog, r, g, None, marker).run()
+            if not any('SW' in m for (_, _, m, _) in sim.exits) and not any('SW' in m for (_, _, m) in sim.fatals):
+                # the walk covers every feasible path: in this entry point the switch is dead code (a shared body
+                # entered with a constant mode argument); it must be live in some entry point, see above
+                continue
+            live_ctx += 1
+            lbl = _role_label(prog, r)
+            srcs = {}
+            for t, slots in tables.items():
+                for k, v in slots.items():
+                    if v and v[0] != 'str' and prog.resolve(v[0], v[1]) is r:
+                        srcs.setdefault(t, k)
+            if not srcs:
+                ctx.ob('R-C15b', '%s:source' % lbl, False, loc=loc, detail='the entry point from which `method` is switched mid-run is not itself a method slot', fn=r.q)
+                continue
+            for s in sorted(srcs):
+                diff = [k for k in SAME_ON_FALLBACK if tables[s].get(k) != tables[target].get(k)]
+                ctx.ob('R-C15b', '%s:%s->%s' % (lbl, s.replace('iv_fd_poll_method_', ''), target.replace('iv_fd_poll_method_', '')), not diff, loc=loc,
+                       detail='state-bearing slots that differ: %s' % (diff or 'none (registered interests, notify lists and descriptors stay valid)'), fn=r.q)
+            slotname = sorted(set(srcs.values()))[0]
             if slotname == 'poll':
                 tp = prog.slot_targets('poll', target)
                 want = set()
                 for t_ in tp:
-                    for x in inlined(prog, t_).events():
+                    # the wait primitives the new method's poll slot can execute (not merely contains: a body shared
+                    # by two slots holds the other slot's wait as dead code)
+                    def wmark(x, env, marks):
                         if x['ev'] == 'call' and prim_kind(x) in WAITS and not h15.zero_timeout_poll(x):
-                            want.add('WAIT:' + prim_kind(x))
+                            return ['WAIT:' + prim_kind(x)]
+                        return ()
+                    s2 = CSim(prog, t_, inlined(prog, t_), None, wmark).run()
+                    for m in [m for (_, _, m, _) in s2.exits] + [m for (_, _, m) in s2.fatals]:
+                        want |= {x for x in m if isinstance(x, str) and x.startswith('WAIT:')}
                 ends = [(m, 'return') for (_, _, m, _) in sim.exits] + [(m, 'fatal') for (_, _, m) in sim.fatals]
                 ok = bool(want) and any('SW' in m for m, _ in ends) and all((m & want) for m, _ in ends if 'SW' in m)
-                ctx.ob('R-C15b', '%s:still-waits' % r.name, ok, loc=loc,
+                ctx.ob('R-C15b', '%s:still-waits' % lbl, ok, loc=loc,
                        detail='after switching, every path of the same invocation performs the wait of the new method (%s)' % sorted(want), fn=r.q)
             else:
                 rets = [rv for (_, _, m, rv) in sim.exits if 'SW' in m]
                 ok = bool(rets) and all(rv is not None and is_const(rv) and rv[0] == 0 for rv in rets)
-                ctx.ob('R-C15b', '%s:reports-not-armed' % r.name, ok, loc=loc, detail='after switching it returns 0, so the caller waits with the deadline itself', fn=r.q)
+                ctx.ob('R-C15b', '%s:reports-not-armed' % lbl, ok, loc=loc, detail='after switching it returns 0, so the caller waits with the deadline itself', fn=r.q)
 
 
 # --------------------------------------------------------------------------
 # R-C15c
 # --------------------------------------------------------------------------
 
-def _exempt_key(prog, owner, kind):
-    if owner.name in PRIMITIVES:
-        ks = [('primitive:' + owner.name, kind)]
-        return ks[0] if ks[0] in EINTR_EXEMPT else None
-    rts = nearest_roots(prog, owner)
-    if not rts:
-        return None
-    key = None
-    for r in rts:
-        hit = [(role, kind) for role in root_role(prog, r) if (role, kind) in EINTR_EXEMPT]
-        if not hit:
-            return None
-        key = hit[0]
-    return key
+UNREACHED = 'unreached in '
+
+
+def relloc(loc):
+    return '/'.join(str(loc).split('/')[-1:])
+
+
+def _exempt_key_of(label, kind):
+    """the exemption table entry an instance label falls under"""
+    base = label.split('@')[0]
+    tabs = label.split('@')[1].split('+') if '@' in label else []
+    for role in [label] + [b for b in base.split('+')] + ['%s@%s' % (b, t) for b in base.split('+') for t in tabs]:
+        if (role, kind) in EINTR_EXEMPT:
+            return (role, kind)
+    raise AnalysisBroken('exemption of %s:%s not found in the table' % (label, kind))
+
+
+def _role_label(prog, r):
+    """one stable label for an entry point: 'slot:<slot>@<tables>' / 'api:<name>' / 'handler:<name>' / 'primitive:<name>'"""
+    if r.name in PRIMITIVES:
+        return 'primitive:' + r.name
+    rl = root_role(prog, r)
+    at = sorted(x for x in rl if x.startswith('slot:') and '@' in x)
+    if at:
+        slots = sorted({x.split('@')[0] for x in at})
+        return '+'.join(slots) + '@' + '+'.join(sorted({x.split('@')[1] for x in at}))
+    return rl[0]
+
+
+def _exempt_for(prog, r, kind):
+    roles_ = ['primitive:' + r.name] if r.name in PRIMITIVES else root_role(prog, r)
+    for role in roles_:
+        if (role, kind) in EINTR_EXEMPT:
+            return (role, kind)
+    return None
 
 
 def eintr(ctx):
+    """Instances are (entry point, primitive) pairs: how many source sites implement the calls of one primitive in
+    one entry point (three copies of a retry loop, or one shared helper with the loop) does not matter.  An instance
+    holds iff every source site of that primitive reached from the entry point satisfies the obligation there."""
     prog = ctx.prog
     sites = _sites(prog, lambda e: e['ev'] == 'call' and 'callee' in e and prim_kind(e) in INTERRUPTIBLE)
-    if len(sites) < 22:
-        raise AnalysisBroken('interruptible call sites: %d found, 25 confirmed' % len(sites))
+    kinds_seen = {prim_kind(evs[0]) for (_, evs) in sites.values()}
+    if not ({'read', 'write', 'epoll_ctl'} <= kinds_seen and (kinds_seen & set(WAITS))):
+        raise AnalysisBroken('interruptible call sites: only %s found' % sorted(kinds_seen))
+    inst = {}       # (label, kind, variant) -> [(loc, ok, detail, fn)]
+
+    def record(r, kind, variant, loc, ok, detail, f):
+        inst.setdefault((_role_label(prog, r), kind, variant), []).append((loc, ok, detail, f.q))
+
     for loc, (f, evs) in sorted(sites.items()):
         c = evs[0]
         nm = prim_kind(c)
-        inst = '%s:%s' % (f.name, nm)
         pred = lambda e, nm=nm: e['ev'] == 'call' and 'callee' in e and prim_kind(e) == nm
 
-        def oracle(e, env, marks, loc=loc, pred=pred):
-            if e.get('loc') == loc and pred(e):
-                return fail(EINTR, 'F')
+        hits = {'n': 0}
+
+        def oracle(e, env, marks, loc=loc, pred=pred, hits=hits):
+            # the site fails with EINTR; from then on so does every call of the same primitive on the same first
+            # argument (descriptor): a rotated loop `r = read(fd); while (r < 0 && errno == EINTR) r = read(fd);`
+            # repeats the call at another source site
+            if not pred(e):
+                return None
+            a0 = names_of(e['args'][0]) if e.get('args') else {'?'}     # every spelling the value is known under
+            if e.get('loc') == loc:
+                hits['n'] += 1
+                return fail(EINTR, 'F', *[('A', n) for n in sorted(a0)])
+            if 'F' in marks and any(('A', n) in marks for n in a0):
+                return fail(EINTR)
             return None
-        if nm in WAITS and not h15.zero_timeout_poll(c):
-            def check(root, g, loc=loc, oracle=oracle):
+        wait = nm in WAITS and not h15.zero_timeout_poll(c)
+        if wait:
+            def check(root, g, loc=loc, oracle=oracle, hits=hits):
                 # the deadline parameter is given (with no deadline the kernel timer, if any, reports the expiry)
                 init = {p['name']: NZ for p in root.params if 'timespec' in p.get('type', '')}
 
@@ -355,9 +485,13 @@ def eintr(ctx):
                             and truth(h15.evaluate(e.get('rhs'), env)) is False:
                         return ['INVAL']
                     return ()
+                hits['n'] = 0
                 sim = CSim(prog, root, g, oracle, marker, init).run()
                 rets = [(m, rv) for (_, _, m, rv) in sim.exits if 'F' in m]
                 fat = [m for (_, _, m) in sim.fatals if 'F' in m]
+                if not hits['n']:
+                    # the walk covers every feasible path: in this entry point the wait site is dead code
+                    return True, UNREACHED + root.name
                 if fat:
                     return False, '%s: EINTR ends in iv_fatal' % root.name
                 if not rets:
@@ -367,36 +501,78 @@ def eintr(ctx):
                 if not all('INVAL' in m for m, _ in rets):
                     return False, '%s: time cache not invalidated after the wait' % root.name
                 return True, '%s: returns non-zero, time invalidated' % root.name
-            ok, res = _eval_site(prog, f, check)
-            ctx.ob('R-C15c', inst + ':wait', ok, loc=loc,
-                   detail='on EINTR the poll slot returns non-zero to the loop (timers re-evaluated with a fresh clock) instead of failing or spinning (%s)'
-                          % '; '.join(d for _, _, d in res), fn=f.q)
-            continue
-        ek = _exempt_key(prog, f, nm)
-        if ek is not None:
-            ctx.exempt('R-C15c', inst, EINTR_EXEMPT[ek])
-            ctx.ob('R-C15c', inst, True, loc=loc, detail='exempt (%s): %s' % (ek[0], EINTR_EXEMPT[ek]), fn=f.q)
-            continue
-
-        def check(root, g, loc=loc, oracle=oracle):
-            sim = (CSim(prog, root, g, oracle) if root.name not in PRIMITIVES else Sim(g, oracle)).run()
-            left = [1 for (_, _, m, _) in sim.exits if 'F' in m] + [1 for (_, _, m) in sim.fatals if 'F' in m]
-            if left:
-                return False, '%s: a path leaves after the call failed with EINTR without repeating it' % root.name
-            return True, '%s: retried' % root.name
+        else:
+            def check(root, g, loc=loc, oracle=oracle, nm=nm):
+                if _exempt_for(prog, root, nm) is not None:
+                    return True, 'exempt'
+                sim = (CSim(prog, root, g, oracle) if root.name not in PRIMITIVES else Sim(g, oracle)).run()
+                left = [1 for (_, _, m, _) in sim.exits if 'F' in m] + [1 for (_, _, m) in sim.fatals if 'F' in m]
+                if left:
+                    return False, '%s: a path leaves after the call failed with EINTR without repeating it' % root.name
+                return True, '%s: retried' % root.name
         ok, res = _eval_site(prog, f, check)
-        ctx.ob('R-C15c', inst + '@' + canon(c['args'][0])[:24], ok, loc=loc,
-               detail='%s is repeated for as long as it fails with errno == EINTR: if it always does, no path returns or aborts (%s)'
-                      % (nm, '; '.join(d for _, _, d in res)), fn=f.q)
+        live = [x for x in res if not x[2].startswith(UNREACHED)]
+        if wait and not live:
+            # a wait that no entry point can reach is not a wait of the loop: the anchor is gone
+            for (r, rok, detail) in res:
+                record(r, nm, 'wait', loc, False, '%s: the wait site cannot be reached in any entry point' % r.name, f)
+        for (r, rok, detail) in live:
+            ek = None if wait else _exempt_for(prog, r, nm)
+            record(r, nm, 'wait' if wait else ('exempt' if ek else 'retried'), loc, rok, detail, f)
+    for (label, kind, variant), rows in sorted(inst.items()):
+        bad = [x for x in rows if not x[1]]
+        loc = (bad or rows)[0][0]
+        name = '%s:%s' % (label, kind)
+        locs = ', '.join(sorted({relloc(x[0]) for x in rows}))
+        if variant == 'exempt':
+            ek = (_exempt_key_of(label, kind))
+            ctx.exempt('R-C15c', name, EINTR_EXEMPT[ek])
+            ctx.ob('R-C15c', name, True, loc=loc, detail='exempt (%s): %s [sites: %s]' % (ek[0], EINTR_EXEMPT[ek], locs), fn=rows[0][3])
+        elif variant == 'wait':
+            ctx.ob('R-C15c', name + ':wait', not bad, loc=loc,
+                   detail='on EINTR the poll slot returns non-zero to the loop (timers re-evaluated with a fresh clock) instead of failing or spinning '
+                          '(%s) [sites: %s]' % ('; '.join(sorted({x[2] for x in rows})), locs), fn=(bad or rows)[0][3])
+        else:
+            ctx.ob('R-C15c', name, not bad, loc=loc,
+                   detail='%s is repeated for as long as it fails with errno == EINTR: if it (and every further %s on the same descriptor) always does, '
+                          'no path returns or aborts (%s) [sites: %s]' % (kind, kind, '; '.join(sorted({x[2] for x in rows})), locs), fn=(bad or rows)[0][3])
     # the lock-primitive exemption rests on signals being blocked at every acquisition of a spinlock outside the asynchronous signal handler
+    # functions whose address reaches a field of a `struct sigaction` (directly, or as an argument of a helper that
+    # fills the struct in: looked at in the entry points with the helpers inlined, where parameters are substituted
+    # or copied into uniquely named locals)
     handlers = set()
-    for fn_ in prog.all_funcs():
-        for e in fn_.events():
-            if e['ev'] == 'store' and 'rhs' in e:
-                r = strip(e['rhs'])
-                if isinstance(r, dict) and r.get('k') == 'var' and r.get('vk') == 'func' \
-                        and any(x.get('k') == 'member' and x.get('record') == 'sigaction' for x in walk(e['lhs'])):
-                    t = prog.resolve(prog.unit_of(fn_), r['name']) if prog.unit_of(fn_) else prog.funcs.get(r['name'])
+
+    def fn_values(g, x, seen=()):
+        x = strip(x)
+        if not isinstance(x, dict):
+            return set()
+        if x.get('k') == 'var' and x.get('vk') == 'func':
+            return {x['name']}
+        if x.get('k') == 'addr':
+            return fn_values(g, x['e'], seen)
+        if x.get('k') == 'cond':
+            return fn_values(g, x['a'], seen) | fn_values(g, x['b'], seen)
+        if x.get('k') == 'var' and x.get('vk') in ('local', 'param') and x['name'] not in seen:
+            out = set()
+            for e2 in g.events():
+                if e2['ev'] == 'store' and e2.get('op') == '=' and 'rhs' in e2 and strip(e2['lhs']).get('k') == 'var' \
+                        and strip(e2['lhs'])['name'] == x['name']:
+                    out |= fn_values(g, e2['rhs'], tuple(seen) + (x['name'],))
+            return out
+        return set()
+    is_sa_store = lambda e: e['ev'] == 'store' and 'rhs' in e and any(x.get('k') == 'member' and x.get('record') == 'sigaction' for x in walk(e['lhs']))
+    graphs = []
+    for o in roles.functions_with(prog, is_sa_store):
+        graphs.append((o, o))
+        for r in nearest_roots(prog, o):
+            graphs.append((r, inlined(prog, r)))
+    for (fn_, g_) in graphs:
+        for e in g_.events():
+            if is_sa_store(e):
+                origin = prog.funcs.get(e.get('fn')) if e.get('fn') else fn_
+                u = prog.unit_of(origin or fn_)
+                for nm_ in fn_values(g_, e['rhs']):
+                    t = (prog.resolve(u, nm_) if u else None) or prog.funcs.get(nm_)
                     if t is not None:
                         handlers.add(t.q)
     if not handlers:
@@ -431,8 +607,198 @@ def eintr(ctx):
 # R-C15d
 # --------------------------------------------------------------------------
 
+def _can_execute(prog, f, kind):
+    """some path of entry point f (helpers inlined) calls the primitive; a call that is merely contained as dead code
+    (a body shared with another slot, entered with a constant mode argument) does not count"""
+    g = inlined(prog, f)
+    if not any(is_prim(x, (kind,)) for x in g.events()):
+        return False
+    sim = CSim(prog, f, g, None, lambda e, env, marks: ['K'] if is_prim(e, (kind,)) else ()).run()
+    return any('K' in m for (_, _, m, _) in sim.exits) or any('K' in m for (_, _, m) in sim.fatals)
+
+
+def _static_state_keys(prog, root, g):
+    """file-scope locations with internal linkage (scalars, members of static structs) that the entry point writes and
+    whose address is never handed to a call: {key: initial value}"""
+    sim = CSim(prog, root, g)
+    unit = prog.unit_of(root)
+    keys = {}
+    for e in g.events():
+        if e['ev'] != 'store':
+            continue
+        k = h15.loc_key(e['lhs'])
+        if k is None or not sim.is_global(k) or k in keys:
+            continue
+        origin = prog.funcs.get(e.get('fn')) if e.get('fn') else None
+        u = (prog.unit_of(origin) if origin is not None else None) or unit
+        gl = prog.global_for(u, h15.key_root(k)) if u else None
+        if gl is None or not gl.get('static') or gl.get('extern_decl'):
+            continue
+        init = gl.get('init')
+        v = None
+        if init is None:
+            v = const(0)
+        elif k == gl['name']:
+            v = h15.evaluate(init, {})
+        elif isinstance(init, dict) and init.get('k') == 'init' and 'fields' in init and k.count('.') == 1 and '[' not in k:
+            fld = k.split('.')[1]
+            v = h15.evaluate(init['fields'][fld], {}) if fld in init['fields'] else const(0)
+        if v is None or not is_const(v):
+            continue
+        keys[k] = v
+    if keys:
+        # an address that escapes into a call makes the writers unknown
+        roots_ = {h15.key_root(k) for k in keys}
+        for fn_ in prog.all_funcs():
+            for e in fn_.events():
+                if e['ev'] == 'call':
+                    for a in e.get('args', []):
+                        for x in walk(a):
+                            if x.get('k') == 'addr':
+                                k2 = h15.loc_key(x['e'])
+                                if k2 is not None and h15.key_root(k2) in roots_:
+                                    for k in [k for k in keys if h15.key_root(k) == h15.key_root(k2)]:
+                                        keys.pop(k)
+    return keys
+
+
+class _RSim(CSim):
+    """CSim for the reachable-state closure: code entered through an indirect call changes the tracked locations only
+    by running entry points of the library, whose effect the closure accounts for separately; so here the tracked
+    locations survive the call"""
+    tracked = frozenset()
+
+    def _event(self, e, env, marks):
+        if e['ev'] == 'call' and 'fnexpr' in e:
+            keep = {k: v for k, v in env.items() if k[0] not in '$%&' and h15.key_root(k) in self.tracked}
+            res = CSim._event(self, e, env, marks)
+            if res is None:
+                return None
+            env2 = dict(res[0])
+            env2.update(keep)
+            return env2, res[1]
+        return CSim._event(self, e, env, marks)
+
+
+def _writes_after_callback(g, roots_):
+    """some path runs an indirect call and later stores to a location rooted at one of roots_"""
+    def is_w(e):
+        if e['ev'] != 'store':
+            return False
+        k = h15.loc_key(e['lhs'])
+        return (k is not None and h15.key_root(k) in roots_) or (k is None and strip(e['lhs']).get('k') == 'deref')
+    wblocks = {b for b, blk in g.blocks.items() if any(is_w(e) for e in blk.events)}
+    for b, blk in g.blocks.items():
+        for i, e in enumerate(blk.events):
+            if e['ev'] == 'call' and 'fnexpr' in e:
+                if any(is_w(x) for x in blk.events[i + 1:]):
+                    return True
+                seen, work = set(), [s_ for s_ in blk.succ if s_ is not None]
+                while work:
+                    x = work.pop()
+                    if x in seen:
+                        continue
+                    seen.add(x)
+                    if x in wblocks:
+                        return True
+                    work.extend(s_ for s_ in g.blocks[x].succ if s_ is not None)
+    return False
+
+
+def _reachable_states(prog, root, g, limit=48):
+    """Joint values of the entry point's private file-scope state that can exist when an entry point is entered: the
+    least set that contains the initialisers and is closed under running (with every call result unknown) each entry
+    point that can write one of these locations.  None when it cannot be bounded."""
+    cache = prog.__dict__.setdefault('_c15_reach', {})
+    keys = _static_state_keys(prog, root, g)
+    ck = tuple(sorted(keys))
+    if not keys:
+        return None
+    if ck in cache:
+        return cache[ck]
+    roots_ = {h15.key_root(k) for k in keys}
+    writers = {}
+    for fn_ in prog.all_funcs():
+        hit = False
+        for e in fn_.events():
+            if e['ev'] == 'store':
+                k = h15.loc_key(e['lhs'])
+                if k is not None and h15.key_root(k) in roots_:
+                    hit = True
+            for x in walk(e):
+                if x.get('k') == 'addr':
+                    k2 = h15.loc_key(x['e'])
+                    if k2 is not None and h15.key_root(k2) in roots_:
+                        hit = True
+        if hit:
+            for r in (_contexts_of(prog, fn_) if fn_.name not in PRIMITIVES else []):
+                writers[r.q] = r
+    proj = lambda env: tuple(sorted((k, env[k]) for k in keys if k in env and env[k] != TOP) +
+                             sorted((k, v) for k, v in env.items() if k[0] == '#' and k[1:] in keys))
+    start = tuple(sorted(keys.items()))
+    states, work = {start}, [start]
+    wac = {}
+    while work:
+        st = work.pop()
+        for q in sorted(writers):
+            r = writers[q]
+            snaps = set()
+
+            def marker(e, env, marks, snaps=snaps):
+                if e['ev'] == 'call' and 'fnexpr' in e:
+                    snaps.add(proj(env))
+                return ()
+            gr = inlined(prog, r)
+            if r.q not in wac:
+                wac[r.q] = _writes_after_callback(gr, roots_)
+            if wac[r.q]:
+                # the value written may depend on what re-entrant code left behind: not modelled
+                cache[ck] = None
+                return None
+            try:
+                sim = _RSim(prog, r, gr, None, marker, dict(st))
+                sim.tracked = roots_
+                sim.run()
+            except AnalysisBroken:
+                cache[ck] = None
+                return None
+            for (_, env, _, _) in sim.exits:
+                snaps.add(proj(env))
+            for (_, env, _) in sim.fatals:
+                snaps.add(proj(env))
+            for s2 in snaps:
+                if s2 not in states:
+                    states.add(s2)
+                    work.append(s2)
+                    if len(states) > limit:
+                        cache[ck] = None
+                        return None
+    cache[ck] = sorted(states, key=repr)
+    return cache[ck]
+
+
+def _from_reachable_states(prog, check):
+    """check(root, g, base) with the file-scope state unknown at entry; if that fails, with every state that can
+    actually exist at entry (the failing path may start from a combination of support flags that no execution
+    produces, e.g. "epoll_create1 still assumed, epoll_create known missing")"""
+    def wrapped(root, g):
+        ok, detail = check(root, g, None)
+        if ok or root.name in PRIMITIVES:
+            return ok, detail
+        sts = _reachable_states(prog, root, g)
+        if not sts:
+            return ok, detail
+        for st in sts:
+            ok2, d2 = check(root, g, dict(st))
+            if not ok2:
+                return False, '%s (entered with the reachable state %s)' % (d2, {k: v for k, v in st})
+        return True, '%s: holds from each of the %d reachable states of %s' % (root.name, len(sts), sorted({k for st in sts for k, _ in st}))
+    return wrapped
+
+
 def _snapshot(sim, env):
-    return tuple(sorted((k, v) for k, v in env.items() if k in sim.globals and v != TOP))
+    """the file-scope state (scalars, members of file-scope structs) known at this point"""
+    return tuple(sorted((k, v) for k, v in env.items() if k[0] not in '$%&' and sim.is_global(k) and v != TOP))
 
 
 def _left_behind(sim):
@@ -474,11 +840,17 @@ def enosys(ctx):
                         if alts and e['ev'] == 'call' and 'callee' in e and prim_kind(e) in alts and not h15.zero_timeout_poll(e):
                             out.append('ALT')
                         if h15.is_method_store(prog, e):
-                            out.append(('SW', h15.stored_table(e)))
+                            t_ = h15.stored_table(e)
+                            if t_ is None and 'rhs' in e:
+                                # the address travelled through a local (parameter of a switching helper)
+                                r_ = box['sim'].ref(e['rhs'], env)
+                                t_ = r_[1] if r_ is not None and r_[0] == 'var' else None
+                            out.append(('SW', t_))
                         elif e['ev'] == 'store':
-                            l = strip(e['lhs'])
-                            if isinstance(l, dict) and l.get('k') == 'var' and l.get('vk') in ('global', 'staticlocal'):
-                                out.append(('gstore', l['name'], h15.evaluate(e['rhs'], env) if (e.get('op') == '=' and 'rhs' in e) else TOP))
+                            key = h15.loc_key(e['lhs'], env)
+                            if key is not None and box['sim'].is_global(key):
+                                out.append(('gstore', key, h15.evaluate(e['rhs'], env) if (e.get('op') == '=' and 'rhs' in e)
+                                            else ('update', e.get('op'), canon(e['rhs']) if 'rhs' in e else '')))
                     return out
                 return oracle, marker, box
 
@@ -494,14 +866,14 @@ def enosys(ctx):
                 return memo[key]
 
             # (1) the same invocation reaches the alternative, for every errno that means "missing"
-            def check_reach(root, g):
+            def check_reach(root, g, base=None):
                 if mode == 'switch':
                     # the wait of the new method may be reached by dispatching through the pointer just stored
-                    ts = {h15.stored_table(e) for e in g.events() if h15.is_method_store(prog, e)} - {None}
+                    ts = set().union(*[_table_values(g, e.get('rhs')) for e in g.events() if h15.is_method_store(prog, e)] + [set()])
                     if len(ts) == 1 and list(ts)[0] in tables:
                         g = inlined(prog, root, method_table=list(ts)[0])
                 for err in errnos:
-                    sim = run(err, root, g)
+                    sim = run(err, root, g, base)
                     ends = [m for (_, _, m, _) in sim.exits] + [m for (_, _, m) in sim.fatals]
                     seen = [m for m in ends if 'F' in m]
                     if not seen:
@@ -514,23 +886,23 @@ def enosys(ctx):
                             return False, '%s: errno %d: a path returns/aborts without switching the method' % (root.name, err)
                 return True, root.name
             if alts is not None:
-                ok, res = _eval_site(prog, f, check_reach)
+                ok, res = _eval_site(prog, f, _from_reachable_states(prog, check_reach) if mode == 'flag' else check_reach)
                 ctx.ob('R-C15d', '%s:falls-back' % inst, ok, loc=loc,
                        detail='when %s fails with %s every path of the same invocation reaches %s (%s)'
                               % (K, '/'.join(str(e_) for e_ in errnos), '/'.join(alts) or 'the method switch', '; '.join(d for _, _, d in res)), fn=f.q)
 
             # (2) one-way demotion
             if mode == 'flag':
-                def check_demote(root, g):
+                def check_demote(root, g, base=None):
                     for err in errnos:
-                        sim = run(err, root, g)
+                        sim = run(err, root, g, base)
                         for st in _left_behind(sim):
                             sim2 = run(err, root, g, init=dict(st))
                             again = [1 for (_, _, m, _) in sim2.exits if 'F' in m] + [1 for (_, _, m) in sim2.fatals if 'F' in m]
                             if again:
                                 return False, '%s: errno %d: the next invocation calls %s again (state %s)' % (root.name, err, K, dict(st))
                     return True, root.name
-                ok, res = _eval_site(prog, f, check_demote)
+                ok, res = _eval_site(prog, f, _from_reachable_states(prog, check_demote))
                 ctx.ob('R-C15d', '%s:demotes' % inst, ok, loc=loc,
                        detail='after %s was found missing, a further invocation entered with the file-scope state left behind does not call it again (%s)'
                               % (K, '; '.join(d for _, _, d in res)), fn=f.q)
@@ -543,22 +915,22 @@ def enosys(ctx):
                             snap.update(dict(x[1]))
                     return {x[1] for x in m if isinstance(x, tuple) and x[0] == 'gstore' and x[2] != snap.get(x[1], TOP)}
 
-                def check_other(root, g):
+                def check_other(root, g, base=None):
                     # the state that records "K is missing": what every path writes after K failed with a handled errno
                     dem = None
                     for err in errnos:
-                        sim = run(err, root, g)
+                        sim = run(err, root, g, base)
                         for m in [m for (_, _, m, _) in sim.exits] + [m for (_, _, m) in sim.fatals]:
                             if 'F' in m:
                                 dem = changed(m) if dem is None else (dem & changed(m))
                     if not dem:
                         return True, '%s: no file-scope demotion state' % root.name
-                    sim = run(EMFILE, root, g)
+                    sim = run(EMFILE, root, g, base)
                     for m in [m for (_, _, m, _) in sim.exits] + [m for (_, _, m) in sim.fatals]:
                         if 'F' in m and (changed(m) & dem):
                             return False, '%s: %s is overwritten although errno was not one of %s' % (root.name, sorted(changed(m) & dem), list(errnos))
                     return True, '%s: %s untouched' % (root.name, sorted(dem))
-                ok, res = _eval_site(prog, f, check_other)
+                ok, res = _eval_site(prog, f, _from_reachable_states(prog, check_other))
                 ctx.ob('R-C15d', '%s:other-errors-do-not-demote' % inst, ok, loc=loc,
                        detail='a failure of %s with an unrelated errno (EMFILE) leaves the support-level state as it was (%s)' % (K, '; '.join(d for _, _, d in res)), fn=f.q)
             else:
@@ -577,7 +949,7 @@ def enosys(ctx):
                                     return False, '%s: switches to %s which is not a method table' % (root.name, t)
                                 for sl in role:
                                     for tf in prog.slot_targets(sl, t):
-                                        if any(is_prim(x, (K,)) for x in inlined(prog, tf).events()):
+                                        if _can_execute(prog, tf, K):
                                             return False, '%s: the new method %s still calls %s' % (root.name, t, K)
                     return True, root.name
                 ok, res = _eval_site(prog, f, check_switch)
@@ -767,13 +1139,45 @@ def exclusion(ctx):
            detail='tables whose init is tried: %s' % sorted(considered), fn=root.q)
     # the exclusion list: values derived from getenv()
     envs = [e for e in g.events() if e['ev'] == 'call' and e.get('callee') in ('getenv', 'secure_getenv')]
-    ctx.ob('R-C15e', 'selection:environment', bool(envs) and len({e['loc'] for e in envs}) == 1 and all(canon(e['args'][0]) == '"IV_EXCLUDE_POLL_METHOD"' for e in envs),
+    def string_of(x, seen=()):
+        # the string an argument denotes: a literal, or a constant array / pointer variable initialised with one
+        x = strip(x)
+        if isinstance(x, dict) and x.get('k') == 'str':
+            return x['v']
+        if isinstance(x, dict) and x.get('k') == 'addr':
+            return string_of(x['e'], seen)
+        if isinstance(x, dict) and x.get('k') == 'index' and canon(x['idx']) == '0':
+            return string_of(x['base'], seen)
+        if isinstance(x, dict) and x.get('k') == 'var' and x['name'] not in seen:
+            vals = set()
+            if x.get('vk') in ('global', 'staticlocal'):
+                for key, gl in prog.globals.items():
+                    if gl.get('name') == x['name'] and isinstance(gl.get('init'), dict) and not prog.global_writers(x['name']):
+                        vals.add(string_of(gl['init'], tuple(seen) + (x['name'],)))
+            for e in g.events():
+                if e['ev'] == 'store' and e.get('op') == '=' and 'rhs' in e and strip(e['lhs']).get('k') == 'var' and strip(e['lhs'])['name'] == x['name']:
+                    vals.add(string_of(e['rhs'], tuple(seen) + (x['name'],)))
+                elif e['ev'] == 'decl' and e.get('name') == x['name'] and 'init' in e:
+                    vals.add(string_of(e['init'], tuple(seen) + (x['name'],)))
+            return list(vals)[0] if len(vals) == 1 else None
+        return None
+    ctx.ob('R-C15e', 'selection:environment', bool(envs) and len({e['loc'] for e in envs}) == 1 and all(string_of(e['args'][0]) == 'IV_EXCLUDE_POLL_METHOD' for e in envs),
            loc=envs[0]['loc'] if envs else root.loc, detail='exclusions come from one read of IV_EXCLUDE_POLL_METHOD', fn=root.q)
     tainted = _derived_from(g, lambda r: isinstance(r, dict) and r.get('k') == 'call' and r.get('callee') in ('getenv', 'secure_getenv'))
 
+    cand_names = {c: set().union(*[names_of(strip(e['fnexpr'])['base']) for e in evs]) for c, evs in inits.items()}
+
     def name_of(c):
+        # a read of `.name` of the same candidate: the base is the same value as the one whose `init` is called (under
+        # any of the spellings copy propagation knows for it), or denotes exactly the same single table
         def src(r):
-            return isinstance(r, dict) and r.get('k') == 'member' and last_member(r) == ('iv_fd_poll_method', 'name') and canon(strip(r['base'])) == c
+            if not (isinstance(r, dict) and r.get('k') == 'member' and last_member(r) == ('iv_fd_poll_method', 'name')):
+                return False
+            b = strip(r['base'])
+            if names_of(r['base']) & cand_names[c]:     # (the `_was` annotation sits on the load around the access path)
+                return True
+            d = _candidate_tables(prog, g, b, tables)
+            return len(d) == 1 and d == denotes[c]
         return src
 
     def mentions(x, names, src):
@@ -846,6 +1250,10 @@ def _derived_from(g, is_source, through_calls=True):
         for e in g.events():
             if e['ev'] == 'store' and 'rhs' in e:
                 l = strip(e['lhs'])
+                if isinstance(l, dict) and l.get('k') == 'deref':
+                    # `*&x = ..`: an out-parameter of an inlined helper
+                    k = h15.loc_key(l)
+                    l = {'k': 'var', 'name': k} if (k is not None and '.' not in k and '[' not in k) else l
                 if isinstance(l, dict) and l.get('k') == 'var' and l['name'] not in names and (reads(e['rhs']) or (e.get('op') != '=' and l['name'] in names)):
                     names.add(l['name'])
                     changed = True
